@@ -211,7 +211,9 @@ class FileModel:
         from sim.core import digest as dg
         e = self.isos[key]
         fmat = self.mats.get(e["mname"])
-        return fmat is not None and dg.diff(e["content"]["mat"], fmat, rtol=0.0) is None
+        # strictly: the identifier distinguishes True from 1.0, so only an exactly equal description obliges it to match
+        # ... and only values of the required domain come back with their type (True comes back as 1.0)
+        return fmat is not None and dg.diff(e["content"]["mat"], fmat, rtol=0.0) is None and props_domain(fmat, ()) == "required"
 
     # ------------------------------------------------------------------ effects
     def apply(self, op, reply):
@@ -267,6 +269,8 @@ class FileModel:
                 elif ck == "adsorbate" and e["aname"] != cv:
                     ok = False
                 elif ck == "iso_type" and e["iso_type"] != cv:
+                    ok = False
+                elif ck == "id" and k != cv:
                     ok = False
                 elif ck == "temperature":
                     t = e["temperature"]
